@@ -1,6 +1,6 @@
 from props import cfg
 
-CFG = cfg('C20', refine=[], extract='Ex_C20', driver='c20',
+CFG = cfg('C20', refine=['Refine_message'], extract='Ex_C20', driver='c20',
           rule='messages built through the public API: content class (empty / ASCII / UTF-8 / charset hint latin-1, cp1251, shift_jis, koi8-r / '
                'binary / 64 kB quick, >= 1 MB thorough) x format (auto b t u l 1 m) x file name (empty, _CONSOLE, latin-1 non-ASCII, 255 octets, real '
                'files) x fixed times (0, 1, T0, 2^31, 2^32-1) x 4 compression algorithms x 0..4 signers (RSA DSA EdDSA ECDSA, several hashes, equal and '
